@@ -41,7 +41,7 @@ func newHEnvLimits(limitInvariant bool) *hEnv {
 	e.bank.modules[types.ModuleName] = []string{authtypes.Minter, authtypes.Burner}
 	e.deputy, e.user, e.other = vAddr(5), vAddr(1), vAddr(2)
 	e.k = NewKeeper(e.cdc, e.key, e.acc, e.bank, vAddr(9).String()) // the app's own constructor
-	zero, w := big.NewInt(0), verifPow2(64)
+	zero, w := big.NewInt(0), verifAmt(64)
 	e.asset = types.AssetParam{
 		Denom: hDenom,
 		SupplyLimit: types.SupplyLimit{Limit: verifIntIn("limit", zero, w), TimeLimited: verifBool("timeLimited"),
@@ -145,7 +145,7 @@ func hChooseShape() hShape {
 func VerifC03_Claim() {
 	verifExpect("claimed", "refused")
 	e := newHEnv()
-	one, w := big.NewInt(1), verifPow2(64)
+	one, w := big.NewInt(1), verifAmt(64)
 	sh := hChooseShape()
 	state := []types.HTLCState{types.Open, types.Completed, types.Refunded}[verifChoice("state", 3)]
 	amt := verifIntIn("amt", one, w)
@@ -160,7 +160,7 @@ func VerifC03_Claim() {
 	expiry := uint64(hHeight) + []uint64{10, 1}[verifChoice("lastOpenBlock", 2)]
 	h := e.putHTLC(id, state, sh.transfer, sh.dir, amount, ts, expiry, state == types.Open)
 	// invariants tying the record to escrow and counters (H5/H6) for an open contract
-	escrow := verifIntIn("escrow", big.NewInt(0), verifPow2(66))
+	escrow := verifIntIn("escrow", big.NewInt(0), verifAmt(66))
 	e.bank.fund(vModuleAddr(types.ModuleName), denom, escrow)
 	if state == types.Open {
 		switch {
@@ -250,7 +250,7 @@ func VerifC04_Create() {
 		}
 	}
 	amount := sdk.NewCoins(sdk.NewInt64Coin(denom, amtV))
-	e.bank.fund(sender, denom, verifIntIn("wallet", big.NewInt(0), verifPow2(66)))
+	e.bank.fund(sender, denom, verifIntIn("wallet", big.NewInt(0), verifAmt(66)))
 	ts := uint64(1700000000)
 	ctx := e.ctx.WithBlockTime(time.Unix(1700000000+int64(verifChoice("skew", 3)-1)*1200, 0))
 	lock := types.GetHashLock(hSecretGood, ts)
@@ -310,7 +310,7 @@ func VerifC04_Create() {
 func VerifC03_Refund() {
 	verifExpect("refunded")
 	e := newHEnv()
-	one, w := big.NewInt(1), verifPow2(64)
+	one, w := big.NewInt(1), verifAmt(64)
 	sh := hChooseShape()
 	amt := verifIntIn("amt", one, w)
 	denom := hOther
@@ -320,7 +320,7 @@ func VerifC03_Refund() {
 	amount := sdk.NewCoins(sdk.Coin{Denom: denom, Amount: amt})
 	id := hID(1)
 	h := e.putHTLC(id, types.Open, sh.transfer, sh.dir, amount, 1700000000, uint64(hHeight), true)
-	escrow := verifIntIn("escrow", big.NewInt(0), verifPow2(66))
+	escrow := verifIntIn("escrow", big.NewInt(0), verifAmt(66))
 	e.bank.fund(vModuleAddr(types.ModuleName), denom, escrow)
 	if !sh.transfer || sh.dir == types.Outgoing {
 		verifAssume(escrow.BigInt().Cmp(amt.BigInt()) >= 0) // H5
@@ -375,7 +375,7 @@ func VerifC04_PeriodClock() {
 	e.bank.modules[types.ModuleName] = []string{authtypes.Minter, authtypes.Burner}
 	e.k = NewKeeper(e.cdc, e.key, e.acc, e.bank, vAddr(9).String()) // the app's own constructor
 	e.deputy = vAddr(5)
-	zero, w := big.NewInt(0), verifPow2(64)
+	zero, w := big.NewInt(0), verifAmt(64)
 	denoms := []string{"htltaaa", "htltbbb"}
 	var assets []types.AssetParam
 	type pre struct {
